@@ -10,7 +10,9 @@ GROUPS = [
          loops=["swap_buf.u16", "swap_buf.u32", "swap_buf.u64"], min_loop_steps=3, min_postconditions=4),
     dict(name="chksum_accum_bounded", harness=H, enforce="chksum_accum", defines=["SSW_NO_MEM_STUBS", "S3_CHK_BOUND"], allow_no_body=NB + ["ssw_memcpy", "ssw_memmove"], unwind=9, min_postconditions=1,
          bounded="n_el <= 6 elements (loop contracts on these loops crash goto-instrument: the accumulator is a parameter)"),
-    dict(name="s3file_get_1d", harness=H, enforce="s3file_get_1d", replace=["s3file_get"], defines=MEM + ["S3_MAXLEN=4096"], allow_no_body=NB + ["ssw_memcpy", "ssw_memmove"], min_postconditions=3),
+    dict(name="s3file_get_1d_inl", harness=H, entry="h_s3file_get_1d", enforce="s3file_get_1d", replace=["ssw_memcpy", "chksum_accum"], loop_contracts=True, loops=["swap_buf.u16", "swap_buf.u32", "swap_buf.u64"], defines=MEM + ["S3_MAXLEN=64"], allow_no_body=NB + ["ssw_memmove"], tiers=("probe",)),
+    dict(name="s3file_get_1d", harness=H, enforce="s3file_get_1d", replace=["s3file_get"], defines=MEM + ["S3_MAXLEN=64"],
+         bounded="file length <= 64 bytes (counts read from the file are arbitrary 32-bit values; symbolic-size allocations beyond that did not finish)", allow_no_body=NB + ["ssw_memcpy", "ssw_memmove"], min_postconditions=3),
     dict(name="s3file_get_2d", harness=H, enforce="s3file_get_2d", replace=["s3file_get", "s3file_get_1d"], defines=MEM, allow_no_body=NB + ["ssw_memcpy", "ssw_memmove"], min_postconditions=2),
     dict(name="s3file_get_3d", harness=H, enforce="s3file_get_3d", replace=["s3file_get", "s3file_get_1d"], defines=MEM, allow_no_body=NB + ["ssw_memcpy", "ssw_memmove"], min_postconditions=2),
     dict(name="s3file_verify_chksum", harness=H, enforce="s3file_verify_chksum", replace=["s3file_get"], defines=MEM, allow_no_body=NB + ["ssw_memcpy", "ssw_memmove"], min_postconditions=3),
